@@ -130,6 +130,24 @@ def check_case(ctx: Ctx, case: dict):
         ctx.count("validated")
         validated = bool(v.get("verdict"))
         if not validated:
+            # a program the validator rejects: look at once for the input on which it fails.  A bare `inf` / `nan` (the
+            # recorded extreme-constant findings) raises NameError wherever the line is reached, also at points where the
+            # reference is undefined and which the value comparison below therefore skips.
+            probe_ex = None
+            try:
+                g0 = gen.GModel(comps=[""])
+                g0.states = {n: (None, "") for n in rm.states}
+                g0.params = {n: (None, "") for n in rm.params}
+                pt0 = (points or gen.gen_inputs(random.Random(len(text)), g0, 1))[0]
+                s_, p_, _ = oracle.arrays_for(pt0, layout)
+                with np.errstate(all="ignore"):
+                    mod.rhs(pt0["t"], s_, p_)
+            except Exception as ex:
+                probe_ex = ex
+            if probe_ex is not None and extreme_class(probe_ex):
+                ctx.violate(f"C01/numpy/extreme-constant/{extreme_class(probe_ex)}",
+                            f"generated rhs raised {type(probe_ex).__name__}: {str(probe_ex)[:100]}", case={"text": text, "points": [pt0]})
+                return
             ctx.broke("validator", "checkRhs", json.dumps({"text": text, "verdict": v}))
     # --- numeric oracle
     if points is None:
